@@ -56,6 +56,12 @@
 (*   "CloseMissesDrain" Close tests for pending packets and registers its      *)
 (*                     "drain" listener in two steps without looking again: a  *)
 (*                     drain emitted in between (or being emitted) is missed   *)
+(*   "DreqAbortIsError" the server's own abort of a data request (429) is taken *)
+(*                     for the client closing it prematurely (transport error) *)
+(*   "OkFirst"         a data request is acknowledged before its packets are   *)
+(*                     processed                                               *)
+(*   "DreqKeepsSlot"   the 413 / end-of-request path forgets to release the    *)
+(*                     data request slot                                       *)
 (* With Deviations = {} the model is the code as it stands.                    *)
 EXTENDS Integers, Sequences, FiniteSets, TLC, Json, EioProps
 
@@ -63,7 +69,9 @@ CONSTANTS Msgs,        \* payload identifiers the application may send, e.g. {1,
           CliMsgs,     \* payload identifiers the client may submit
           MaxPolls,    \* bound on client poll requests
           MaxPings,    \* bound on server pings
-          Features,    \* subset of {"close","upgrade","heartbeat","overlap","peer","window","closewin","abort","late"}
+          Features,    \* subset of {"close","upgrade","heartbeat","overlap","peer","window","closewin","abort","late","dreq",..}
+          PayloadSet,  \* feature "dreq": which set of payloads a data request may carry ("none" | "q" | "t", see Payloads)
+          MaxPosts,    \* .. and the bound on data requests
           Deviations
 
 VARIABLES s,     \* the session (record, see Init)
@@ -114,7 +122,15 @@ Init ==
           cw |-> FALSE,             \* Close(false) has seen packets pending and has not yet registered its "drain" listener
           dl |-> FALSE,             \* that listener was registered when the "drain" event now being emitted started (Emit calls a snapshot)
           pingOut |-> FALSE,        \* a ping is outstanding
-          armed |-> FALSE]          \* .. and its timeout timer is armed
+          armed |-> FALSE,          \* .. and its timeout timer is armed
+          \* the data request (POST) in progress on the polling transport (feature "dreq")
+          dh |-> "none",            \* its handler goroutine: none | tested (slot taken, parked at polling.data.tested) | run |
+                                    \* inclose (inside socket.OnClose, which its close packet started)
+          dctx |-> FALSE,           \* polling.dataCtx is set (a second data request is an overlap)
+          dcl |-> FALSE,            \* its cleanup and its "close" listener are registered (not before the handler passed polling.data.tested)
+          dqr |-> <<>>,             \* packets of its payload not processed yet
+          ddone |-> FALSE,          \* its HttpContext is done (a response was written, or the client went away): later writes are refused
+          dresp |-> <<>>]           \* responses written to it
   /\ ob = [sent |-> <<>>,           \* messages accepted by Send, in order
            rcvd |-> <<>>,           \* messages the client received, in order
            delivered |-> <<>>, submitted |-> <<>>,
@@ -125,7 +141,11 @@ Init ==
            unprobed |-> FALSE,      \* the transport was switched for a candidate that had not been probed
            ncand |-> 0,             \* candidates opened (counted in the liveness runs only, where the environment must be finite)
            cclosed |-> FALSE,       \* the client has been sent a close packet: a conformant client does not poll any more
-           aborted |-> FALSE]       \* the client gave up a poll (it is not "a client that keeps reading" any more)
+           aborted |-> FALSE,       \* the client gave up a poll (it is not "a client that keeps reading" any more)
+           dreqs |-> 0,             \* data requests accepted so far
+           dgone |-> FALSE,         \* the client gave up the data request in progress (nobody is left to respond to)
+           dacc |-> FALSE,          \* some data request has been accepted
+           posted |-> {}]           \* client message ids that travelled in a data request
   /\ hist = <<>>
 
 ----------------------------------------------------------------------------
@@ -172,9 +192,15 @@ TrClose(x, t, withFn) ==
                  IF withFn /\ y.rs # "closed"
                  THEN CloseEnter([y EXCEPT !.pfin = TRUE], "forced close")       \* p.OnClose() once socket.OnClose (all of it) has returned
                  ELSE PClosed(y)
-         IN IF x.wr["p"] THEN onClose(TrSend([x EXCEPT !.trs["p"] = "closing"], "p", <<P("close")>>))
-            ELSE IF x.disc THEN onClose([x EXCEPT !.trs["p"] = "closing"])
-            ELSE [x EXCEPT !.trs["p"] = "closing", !.sc = TRUE, !.scfn = withFn]
+             \* a data request still being processed is ended by the server: cleanup (when registered), 429
+             abort == x.dctx /\ ~x.ddone
+             x1 == IF abort THEN [x EXCEPT !.dctx = ~x.dcl, !.dcl = FALSE, !.ddone = TRUE, !.dresp = Append(@, "429")] ELSE x
+             r == IF x1.wr["p"] THEN onClose(TrSend([x1 EXCEPT !.trs["p"] = "closing"], "p", <<P("close")>>))
+                  ELSE IF x1.disc THEN onClose([x1 EXCEPT !.trs["p"] = "closing"])
+                  ELSE [x1 EXCEPT !.trs["p"] = "closing", !.sc = TRUE, !.scfn = withFn]
+         IN \* (before fix 0242b33 the 429 was written with the request's "close" listener still attached: the context's
+            \*  close event then reported "data request connection closed prematurely")
+            IF abort /\ x.dcl /\ Dev("DreqAbortIsError") THEN TrEvent(r, "p", "transport error") ELSE r
 
 (* ---- socket --------------------------------------------------------------- *)
 \* socket.flush up to and including the "flush" listeners: TryLock, state and Writable test, take the buffer
@@ -218,6 +244,15 @@ FlushHand(x) ==
 
 \* a trigger of flush with continuation k: either the buffer is taken (window open, FlushHand follows) or the tail runs at once
 Flush(x, k) == LET y == FlushTake(x, k) IN IF Took(x, y) THEN y ELSE After(y, k)
+
+\* the end of onDataRequest: cleanup(), then "ok" (refused by a context that is done)
+DqFinish(x) == [x EXCEPT !.dh = "none", !.dctx = IF Dev("DreqKeepsSlot") THEN @ ELSE FALSE, !.dcl = FALSE, !.dqr = <<>>, !.ddone = TRUE,
+                         !.dresp = IF x.ddone THEN @ ELSE Append(@, "ok")]
+\* the handler whose close packet started socket.OnClose goes on when that has returned
+DqResume(x) == IF x.dh = "inclose" THEN DqFinish(x) ELSE x
+\* polling.OnClose called for a close packet in a payload (the goroutine of a DoClose that may be inside fn() is another one)
+DqPClosed(x) == LET c == IF x.wr["p"] THEN TrSend(x, "p", <<P("noop")>>) ELSE x
+                IN IF x.trs["p"] = "closed" THEN c ELSE TrEvent([c EXCEPT !.trs["p"] = "closed"], "p", "transport close")
 
 \* socket.sendPacket
 SendPacket(x, p) == IF x.rs = "open" THEN Flush([x EXCEPT !.wbuf = Append(@, p)], "none") ELSE x
@@ -293,7 +328,7 @@ CloseFinish(reason) ==
                 THEN [a EXCEPT !.cand = "dead", !.upgrading = FALSE, !.trs["w"] = "closed"]
                 ELSE a
            f == PAfterFn(b)          \* socket.OnClose returns: a polling DoClose that called it goes on
-       IN s' = f.s /\ ob' = [ob EXCEPT !.rcvd = @ \o f.got, !.cclosed = @ \/ f.cl]
+       IN s' = DqResume(f.s) /\ ob' = [ob EXCEPT !.rcvd = @ \o f.got, !.cclosed = @ \/ f.cl]
     /\ H([a |-> "onclose.finish", reason |-> reason])
 
 \* without the windows the two steps are one (keeps the state space of the families that do not study them small)
@@ -305,7 +340,7 @@ CloseRest(reason) ==
            d == [c EXCEPT !.wbuf = <<>>, !.trs["w"] = IF @ = "closing" THEN "closed" ELSE @]
            e == IF d.cand \in {"attached", "probed"} THEN [d EXCEPT !.cand = "dead", !.upgrading = FALSE, !.trs["w"] = "closed"] ELSE d
            f == PAfterFn(e)
-       IN s' = f.s /\ ob' = [ob EXCEPT !.nclose = @ + 1, !.reasons = Append(@, reason), !.rcvd = @ \o f.got, !.cclosed = @ \/ f.cl]
+       IN s' = DqResume(f.s) /\ ob' = [ob EXCEPT !.nclose = @ + 1, !.reasons = Append(@, reason), !.rcvd = @ \o f.got, !.cclosed = @ \/ f.cl]
     /\ H([a |-> "onclose.rest", reason |-> reason])
 
 ----------------------------------------------------------------------------
@@ -359,7 +394,8 @@ PollAbort ==
 
 \* the client submits a message (data request, or a frame once upgraded)
 CliMsg(m) ==
-    /\ m \notin SeqSet(ob.submitted) /\ m \notin SeqSet(ob.delivered) /\ s.reg /\ s.rs \in {"open", "closing"} /\ s.att[s.cur]
+    /\ m \notin SeqSet(ob.submitted) /\ m \notin SeqSet(ob.delivered) /\ m \notin ob.posted /\ s.reg /\ s.rs \in {"open", "closing"} /\ s.att[s.cur]
+    /\ ("dreq" \in Features => s.cur = "w")          \* (with the feature, what a polling client submits travels in data requests)
     /\ ob' = [ob EXCEPT !.submitted = IF s.rs = "open" /\ s.enter = {} THEN Append(@, m) ELSE @,
                         !.delivered = IF s.rs = "open" THEN Append(@, m) ELSE @]
     /\ UNCHANGED s
@@ -367,12 +403,74 @@ CliMsg(m) ==
 
 \* the client posts a close packet (polling) or closes its socket (websocket)
 PeerClose ==
-    /\ "peer" \in Features /\ s.reg /\ s.trs[s.cur] = "open"
+    /\ "peer" \in Features /\ s.reg /\ s.trs[s.cur] = "open" /\ ("dreq" \in Features => s.cur = "w")
     /\ LET t == s.cur
            a == IF t = "p" /\ s.wr["p"] THEN TrSend(s, "p", <<P("noop")>>) ELSE s      \* close pending poll request
        IN s' = TrEvent([a EXCEPT !.trs[t] = "closed"], t, "transport close")
     /\ UNCHANGED ob
     /\ H([a |-> "peerclose"])
+
+----------------------------------------------------------------------------
+(* data requests (feature "dreq"): onDataRequest runs on the request's goroutine; its yield points are polling.data.tested   *)
+(* (slot taken, nothing registered yet) and, after every packet other than close, the harness's own listener of the        *)
+(* transport's "packet" event.  A payload is a sequence over "m" (message: the next unused client id), "c" (close), "o"     *)
+(* (pong).                                                                                                                *)
+Dreq == "dreq" \in Features
+Payloads == CASE PayloadSet = "q" -> {<<"m">>, <<"m", "c", "m">>, <<"o">>}
+              [] PayloadSet = "t" -> {<<>>, <<"m">>, <<"m", "m">>, <<"m", "c", "m">>, <<"o">>, <<"o", "m">>, <<"c">>}
+              [] OTHER -> {}
+NMsg(k) == Cardinality({i \in 1..Len(k) : k[i] = "m"})
+RECURSIVE Assign(_, _)
+Assign(k, free) == IF k = <<>> THEN <<>>
+                   ELSE IF Head(k) = "m" THEN LET m == CHOOSE x \in free : \A y \in free : x <= y
+                                              IN <<Msg(m)>> \o Assign(Tail(k), free \ {m})
+                   ELSE <<P(IF Head(k) = "c" THEN "close" ELSE "pong")>> \o Assign(Tail(k), free)
+RECURSIVE KStr(_)
+KStr(k) == IF k = <<>> THEN "" ELSE Head(k) \o KStr(Tail(k))
+RECURSIVE BeforeClose(_)
+BeforeClose(b) == IF b = <<>> \/ Head(b).ty = "close" THEN <<>> ELSE <<Head(b)>> \o BeforeClose(Tail(b))
+
+\* the request is accepted: dataCtx.CompareAndSwap(nil, ctx)
+DqOpen(k) ==
+    /\ Dreq /\ ob.dreqs < MaxPosts /\ s.reg /\ s.cur = "p" /\ s.dh = "none" /\ ~s.dctx
+    /\ NMsg(k) <= Cardinality(CliMsgs \ ob.posted)
+    /\ LET b == Assign(k, CliMsgs \ ob.posted)
+           elig == IF s.rs = "open" /\ s.enter = {} THEN MsgsOf(BeforeClose(b)) ELSE <<>>
+       IN /\ s' = [s EXCEPT !.dh = "tested", !.dctx = TRUE, !.dcl = FALSE, !.dqr = b, !.ddone = Dev("OkFirst"),
+                            !.dresp = IF Dev("OkFirst") THEN <<"ok">> ELSE <<>>]
+          /\ ob' = [ob EXCEPT !.dreqs = @ + 1, !.dgone = FALSE, !.dacc = TRUE, !.submitted = @ \o elig,
+                              !.posted = @ \cup SeqSet(MsgsOf(b))]
+    /\ H([a |-> "post", k |-> KStr(k)])
+\* a second data request while the slot is taken: 400 + OnError("data request overlap from client")
+DqOverlap ==
+    /\ Dreq /\ "overlap" \in Features /\ s.dctx /\ s.reg /\ s.cur = "p" /\ ob.dreqs < MaxPosts
+    /\ s' = TrEvent(s, "p", "transport error")
+    /\ ob' = [ob EXCEPT !.dreqs = @ + 1]
+    /\ H([a |-> "post.overlap"])
+\* the handler runs to its next yield point: (first) registers cleanup and "close" listener, reads the body; processes one packet;
+\* with nothing left: cleanup, "ok"
+DqStep ==
+    /\ s.dh \in {"tested", "run"}
+    /\ LET a == IF s.dh = "tested" THEN [s EXCEPT !.dh = "run", !.dcl = ~s.ddone] ELSE s IN
+       IF a.dqr = <<>>
+       THEN s' = DqFinish(a) /\ UNCHANGED ob /\ H([a |-> "post.step", ty |-> "end"])
+       ELSE LET p == Head(a.dqr)
+                b == [a EXCEPT !.dqr = Tail(@)]
+                live == b.rs = "open" /\ b.att["p"]
+            IN /\ H([a |-> "post.step", ty |-> p.ty])
+               /\ IF p.ty = "message"
+                  THEN s' = b /\ ob' = [ob EXCEPT !.delivered = IF live THEN Append(@, p.id) ELSE @]
+                  ELSE IF p.ty = "pong"
+                  THEN s' = (IF live /\ b.pingOut THEN [b EXCEPT !.pingOut = FALSE, !.armed = FALSE] ELSE b) /\ UNCHANGED ob
+                  ELSE LET c == DqPClosed([b EXCEPT !.dqr = <<>>]) IN
+                       s' = (IF c.enter # b.enter THEN [c EXCEPT !.dh = "inclose"] ELSE DqFinish(c)) /\ UNCHANGED ob
+\* the client gives the data request up: the context is done, its "close" event finds the handler's listener (if registered)
+DqAbort ==
+    /\ Dreq /\ "abort" \in Features /\ s.dh \in {"tested", "run", "inclose"} /\ ~s.ddone /\ s.reg
+    /\ LET a == [s EXCEPT !.ddone = TRUE] IN
+       s' = IF a.dcl THEN TrEvent([a EXCEPT !.dctx = FALSE, !.dcl = FALSE], "p", "transport error") ELSE a
+    /\ ob' = [ob EXCEPT !.dgone = TRUE]
+    /\ H([a |-> "post.abort"])
 
 ----------------------------------------------------------------------------
 (* websocket transport: one `go w.send(batch)` goroutine runs *)
@@ -411,6 +509,7 @@ CheckTick ==
 \* (a candidate that sends "upgrade" without having been probed is an unexpected packet: CandFail)
 CandUpgrade ==
     /\ (s.cand = "probed" \/ (Dev("UpgradeNoProbe") /\ s.cand = "attached")) /\ s.poll = "none" /\ s.infl["p"] = <<>> /\ s.infl["w"] = <<>>
+    /\ s.dh = "none"            \* (.. nor a data request)
     /\ IF s.rs = "closed" /\ ~Dev("UpgradeOnClosed")
        THEN \* too late: cleanup, the candidate is closed
             /\ "late" \in Features
@@ -442,7 +541,7 @@ PingFire ==
     /\ ob' = IF s.rs = "open" THEN [ob EXCEPT !.npings = @ + 1] ELSE ob
     /\ H([a |-> "ping"])
 Pong ==
-    /\ s.pingOut /\ s.rs = "open" /\ s.att[s.cur]
+    /\ s.pingOut /\ s.rs = "open" /\ s.att[s.cur] /\ ("dreq" \in Features => s.cur = "w")
     /\ s' = [s EXCEPT !.pingOut = FALSE, !.armed = FALSE]
     /\ UNCHANGED ob
     /\ H([a |-> "pong"])
@@ -460,6 +559,7 @@ Next == \/ \E m \in Msgs : AppSend(m)
         \/ (\E d \in BOOLEAN : AppClose(d)) \/ AppCloseWait
         \/ CliPoll \/ (\E i \in 1..2 : PollWrite(i)) \/ WsWrite \/ PeerClose \/ PollAbort \/ CloseTimeoutFire
         \/ \E m \in CliMsgs : CliMsg(m)
+        \/ (\E k \in Payloads : DqOpen(k)) \/ DqOverlap \/ DqStep \/ DqAbort
         \/ (CloseWin /\ \E r \in s.enter : CloseMid(r))
         \/ (CloseWin /\ \E r \in s.mid : CloseFinish(r))
         \/ (~CloseWin /\ \E r \in s.enter : CloseRest(r))
@@ -474,11 +574,12 @@ Spec == Init /\ [][NextW]_vars
 ----------------------------------------------------------------------------
 IsPrefix(a, b) == Len(a) <= Len(b) /\ SubSeq(b, 1, Len(a)) = a
 InClose == s.enter # {} \/ s.mid # {}
-Quiet == ~InClose /\ s.infl["p"] = <<>> /\ s.infl["w"] = <<>> /\ ~Locked(s) /\ ~s.cw
+Quiet == ~InClose /\ s.infl["p"] = <<>> /\ s.infl["w"] = <<>> /\ ~Locked(s) /\ ~s.cw /\ s.dh = "none"
 
 TypeOK == /\ s.rs \in {"open", "closing", "closed"} /\ s.cur \in T /\ s.poll \in {"none", "pending", "gone"}
           /\ s.cand \in {"none", "attached", "probed", "dead"} /\ s.flk \in {"none", "poll", "upg"} /\ s.fw \in BOOLEAN /\ s.fd \in BOOLEAN /\ s.cw \in BOOLEAN /\ s.dl \in BOOLEAN
           /\ \A t \in T : s.trs[t] \in {"none", "open", "closing", "closed"}
+          /\ s.dh \in {"none", "tested", "run", "inclose"} /\ s.dctx \in BOOLEAN /\ s.dcl \in BOOLEAN /\ s.ddone \in BOOLEAN
 
 \* C01: what the client has received is always a prefix of what Send accepted
 C01_Prefix == IsPrefix(ob.rcvd, ob.sent)
@@ -491,6 +592,14 @@ C01_NothingLost == (s.rs = "open" /\ ~InClose) =>
 C01_NoStuckBuffer == ~(s.rs = "open" /\ ~InClose /\ ~Locked(s) /\ s.wbuf # <<>> /\ s.wr[s.cur] /\ s.att[s.cur])
 \* C02: what the application was handed is what the client submitted while the session was open, in order
 C02_Order == IsPrefix(ob.submitted, ob.delivered) \/ IsPrefix(ob.delivered, ob.submitted)
+\* C02: with no data request in progress on an open session, everything eligible has been delivered
+C02_DqAll == (s.rs = "open" /\ ~InClose /\ s.dh = "none") => ob.delivered = ob.submitted
+C02_DqPrefix == "dreq" \in Features => IsPrefix(ob.delivered, ob.submitted)
+\* C11: a data request gets exactly one response (unless its client went away), "ok" only when its handler is through, and
+\* the slot is free again afterwards
+C11_DqOneResponse == Len(s.dresp) <= 1 /\ ((s.dh = "none" /\ ob.dacc /\ ~ob.dgone) => Len(s.dresp) = 1)
+C11_OkAfterAll == "ok" \in SeqSet(s.dresp) => s.dh = "none"
+C11_SlotFree == s.dh = "none" => ~s.dctx
 \* C03: at most one close event; the state never leaves closed; a close event only for a cause
 C03_OneClose == ob.nclose <= 1
 C03_ClosedIsFinal == ob.nclose = 1 => s.rs = "closed"
@@ -525,7 +634,7 @@ C07_DeadlineArmed == (s.pingOut /\ s.rs = "open" /\ ~InClose /\ ~s.upgraded) => 
 (* ---- liveness: the "eventually" halves of the properties, checked under fairness of everything the SERVER does by     *)
 (* itself (goroutines that have been started run to their next yield point, timers that stay due fire) and of a client  *)
 (* that keeps reading; configurations for these use the feature "nohist" and no VIEW                                   *)
-Internal == \/ FlushGo \/ FlushEnd \/ (\E i \in 1..2 : PollWrite(i)) \/ WsWrite \/ AppCloseWait
+Internal == \/ DqStep \/ FlushGo \/ FlushEnd \/ (\E i \in 1..2 : PollWrite(i)) \/ WsWrite \/ AppCloseWait
             \/ (CloseWin /\ \E r \in s.enter : CloseMid(r)) \/ (CloseWin /\ \E r \in s.mid : CloseFinish(r))
             \/ (~CloseWin /\ \E r \in s.enter : CloseRest(r))
 \* (one fairness condition per goroutine: none of them is starved by the others)
@@ -534,7 +643,7 @@ FairSpec == /\ Spec
             /\ WF_vars(CloseWin /\ \E r \in s.enter : CloseMid(r)) /\ WF_vars(CloseWin /\ \E r \in s.mid : CloseFinish(r))
             /\ WF_vars(~CloseWin /\ \E r \in s.enter : CloseRest(r))
             /\ WF_vars(CloseTimeoutFire) /\ WF_vars(PingFire) /\ WF_vars(PingTimeout) /\ WF_vars(CheckTick)
-            /\ WF_vars(CliPoll) /\ SF_vars(CandUpgrade)
+            /\ WF_vars(CliPoll) /\ SF_vars(CandUpgrade) /\ WF_vars(DqStep)
 \* C12: a session that is closing gracefully closes (close packet fetched, close timeout, or the next heartbeat deadline)
 L_C12_ClosingCloses == (s.rs = "closing") ~> (s.rs = "closed")
 \* C01: while the session stays open and the client keeps reading (it has polls left, did not give one up, was not told to stop),
@@ -546,6 +655,8 @@ L_C11_PollAnswered == (s.poll = "pending" /\ s.rs = "closed") ~> (s.poll # "pend
 \* C08: a candidate that follows the protocol (probe answered, upgrade sent as soon as no poll is outstanding) on a session
 \* that stays open completes the switch, unless it fails
 L_C08_UpgradeCompletes == (s.cand = "probed" /\ s.rs = "open") ~> (s.upgraded \/ s.rs # "open" \/ InClose \/ s.cand \in {"none", "dead"})
+\* C11: the handler of an accepted data request returns
+L_C11_DqReturns == (s.dh # "none") ~> (s.dh = "none")
 \* no livelock: the server's own steps come to an end (a flush asking itself for another flush for ever, ..)
 L_NoLivelock == <>[](~ENABLED <<Internal>>_vars)
 
